@@ -43,6 +43,46 @@ def split_line(line):
     return pos, text.strip(), mc, comment
 
 
+def split_log_line(line, mc_on):
+    """logger line -> (position|None, text, machine_code|None, comment|None, leading spaces).
+    Documented layout (emitterutils.cpp finish_formatted_line): `<text> ; <machine code> | <comment>` with kMachineCode,
+    `<text> ; <comment>` without it; a column that has nothing to show is left out."""
+    line = line.rstrip("\n")
+    indent = len(line) - len(line.lstrip(" "))
+    pos = None
+    m = _POS.match(line)
+    if m:
+        pos = int(m.group(1))
+        line = line[m.end():]
+    text, mc, comment = line, None, None
+    if ";" in line:
+        text, rest = line.split(";", 1)
+        if mc_on:
+            if "|" in rest:
+                rest, comment = rest.split("|", 1)
+            mc = rest.strip()
+        else:
+            comment = rest
+    if comment is not None:
+        comment = comment[1:] if comment.startswith(" ") else comment
+    return pos, text.strip(), mc, comment, indent
+
+
+LONG_COMMENT_LIMIT = 1024         # Globals::kMaxCommentSize (documented): longer inline comments are cut there
+
+
+def expected_comment(cid, kind, clamp=True):
+    """the inline comment the driver attaches for layout kind 1 / 2 (drv_format.cpp); the logger cuts it at kMaxCommentSize"""
+    if kind == 1:
+        return "c20#%d note" % cid
+    if kind == 2:
+        t = "c20#%d " % cid
+        while len(t) < 1100:
+            t += chr(ord("a") + len(t) % 26)
+        return t[:LONG_COMMENT_LIMIT] if clamp else t
+    return None
+
+
 def check_machine_code(mc, raw_hex, allow_wildcard):
     """mc: printed column (hex digits and '.'), raw_hex: bytes appended. Returns None if faithful, else a message.
     '.' pairs may only stand for label displacement bytes (allow_wildcard), as one contiguous run of 1 or 4 bytes."""
@@ -394,7 +434,7 @@ def compare_x86_operand(exp, got, names, flags, mode, in_instruction=True):
                 wb = names.label(m["base"][1])
                 unknown |= wb is None
             else:
-                wb, wbann = names.reg(m["base"][0], m["base"][1], flags)
+                wb, wbann = names.reg(m["base"][0], m["base"][1], flags, home=bool(m.get("home")))
                 unknown |= wb is None
         if m["index"]:
             wi, wiann = names.reg(m["index"][0], m["index"][1], flags)
@@ -414,6 +454,9 @@ def compare_x86_operand(exp, got, names, flags, mode, in_instruction=True):
                 gb, gi = gi, gb
             if gbn != wb:
                 yield ("mem-base", "base %s printed as `%s` in `%s`" % (wb, got["base"], got["raw"]))
+            elif wb is not None and m["base"][0] != "label" and bool(gb[2]) != bool(m.get("home")):
+                # `&` in front of the base: the operand is the home slot of that (virtual) register, not an address held in it
+                yield ("mem-home", "register-home flag %s, printed `%s`" % (bool(m.get("home")), got["raw"]))
             if gin != wi:
                 yield ("mem-index", "index %s printed as `%s` in `%s`" % (wi, got["index"], got["raw"]))
             elif wi is not None and gscale != wscale:
@@ -491,6 +534,10 @@ def compare_x86_line(case, alias_group, parsed, names, flags, mode, raw_hex=None
         return out
     for exp, got in zip(case["ops"], ops):
         out += list(compare_x86_operand(exp, got, names, flags, mode))
+        if exp[0] == "I" and got["kind"] == "imm":
+            msg = compare_explain(case["name"], exp[1], explain_vec_size(case), got["deco"], bool(flags & 0x10))
+            if msg:
+                out.append(("explain", msg))
     # {k}{z} on the first operand
     deco0 = list(ops[0]["deco"]) if ops else []
     wk = None
@@ -510,6 +557,15 @@ def compare_x86_line(case, alias_group, parsed, names, flags, mode, raw_hex=None
         for d in o["deco"]:
             if o["kind"] != "imm" and not re.match(r"^1to\d+$", d):
                 out.append(("mask", "decoration {%s} on operand %d" % (d, i)))
+    # `rep {ecx}`: the extra register of a REP/REPNE prefixed string instruction
+    if opts & (G.OPT_REP | G.OPT_REPNE):
+        wre = None
+        if case["extra"] and case["extra"][0] != "k":
+            wre = names.reg(case["extra"][0], case["extra"][1], flags)[0]
+        gre = split_annot(parsed["rep_extra"])[0] if parsed["rep_extra"] else None
+        gre = norm_reg(gre) if gre and not (case["extra"] and isinstance(case["extra"][1], str)) else gre
+        if wre != gre and not (case["extra"] and wre is None):
+            out.append(("rep-extra", "REP count register %s printed as `%s`" % (wre, parsed["rep_extra"])))
     # {er}/{sae}
     want_tail = []
     if opts & G.OPT_ER:
@@ -519,6 +575,207 @@ def compare_x86_line(case, alias_group, parsed, names, flags, mode, raw_hex=None
     if parsed["tail"] != want_tail:
         out.append(("er-sae", "rounding/sae %s printed as %s" % (want_tail, parsed["tail"])))
     return out
+
+
+# ---------------------------------------------------------------------------------------------------------------------
+# kExplainImms: `{a|b|..}` after an imm8. The NOTATION is AsmJit's (selector digits most significant field first, A/B for
+# the first / second source, predicate names of the SDM tables); what the bits MEAN is written here from the Intel SDM
+# instruction descriptions - and, for vfpclass / vfixupimm / vrndscale / vreduce / mpsadbw, confirmed by executing the
+# instructions on the host CPU (cpu_imm_semantics.c in the findings directory). A token may have alternatives (set).
+# ---------------------------------------------------------------------------------------------------------------------
+
+CMP_PRED = ["EQ_OQ", "LT_OS", "LE_OS", "UNORD_Q", "NEQ_UQ", "NLT_US", "NLE_US", "ORD_Q", "EQ_UQ", "NGE_US", "NGT_US", "FALSE_OQ", "NEQ_OQ", "GE_OS",
+            "GT_OS", "TRUE_UQ", "EQ_OS", "LT_OQ", "LE_OQ", "UNORD_S", "NEQ_US", "NLT_UQ", "NLE_UQ", "ORD_S", "EQ_US", "NGE_UQ", "NGT_UQ", "FALSE_OS",
+            "NEQ_OS", "GE_OQ", "GT_OQ", "TRUE_US"]                                                  # SDM CMPPD, table "Comparison Predicate"
+VPCMP_PRED = [{"EQ"}, {"LT"}, {"LE"}, {"FALSE"}, {"NEQ", "NE"}, {"GE", "NLT"}, {"GT", "NLE"}, {"TRUE"}]   # SDM VPCMPD
+VPCOM_PRED = [{"LT"}, {"LE"}, {"GT"}, {"GE"}, {"EQ"}, {"NEQ", "NE"}, {"FALSE"}, {"TRUE"}]                 # AMD XOP VPCOMx
+FPCLASS = ["QNAN", "+0", "-0", "+INF", "-INF", "DENORMAL", "-FINITE", "SNAN"]                       # SDM VFPCLASSPD: imm8 is a bit MASK of categories
+FIXUP_FLAGS = ["ZERO_ZE", "ZERO_IE", "ONE_ZE", "ONE_IE", "SNAN_IE", "-INF_IE", "-VE_IE", "+INF_IE"]   # SDM VFIXUPIMMPD: imm8[k] reports class k
+ROUND_MODES = ["ROUND", "FLOOR", "CEIL", "TRUNC"]                                                   # imm8[1:0]: nearest, down, up, toward zero
+
+_SHUF = {}          # name -> (bits, count | callable(vec_size))
+for _n in ("blendpd", "vblendpd", "vpermilpd"):
+    _SHUF[_n] = (1, lambda v: v // 8)
+for _n in ("blendps", "vblendps"):
+    _SHUF[_n] = (1, lambda v: v // 4)
+_SHUF["vpblendd"] = (1, lambda v: min(v // 4, 8))
+for _n in ("dppd", "dpps", "vdppd", "vdpps", "pblendw", "vpblendw", "vpternlogd", "vpternlogq"):
+    _SHUF[_n] = (1, lambda v: 8)
+for _n in ("vdbpsadbw", "vpermilps", "pshufd", "vpshufd", "pshufhw", "pshuflw", "pshufw", "vpshufhw", "vpshuflw", "vpermq", "vpermpd"):
+    _SHUF[_n] = (2, lambda v: 4)
+for _n in ("vshuff32x4", "vshuff64x2", "vshufi32x4", "vshufi64x2"):
+    _SHUF[_n] = (None, None)
+
+
+def explain_vec_size(case):
+    """width in bytes the explanation has to assume: the widest register operand, at least 16 (an xmm operation)"""
+    w = 16
+    for op in case["ops"]:
+        if op[0] == "R":
+            w = max(w, {"ymm": 32, "zmm": 64}.get(op[1], 8 if op[1] in ("gp64", "mm", "k") else 0))
+    return w
+
+
+def explain_expected(name, imm, vec):
+    """-> None: the instruction is not one whose imm8 we can explain (no verdict);
+       else a list of tokens, each a set of acceptable spellings; a token ('opt', set) may be absent"""
+    u = imm & 0xFF
+    n = name.lower()
+    if n in ("cmppd", "cmpps", "cmpsd", "cmpss"):
+        return [{CMP_PRED[u & 7]}]
+    if n in ("vcmppd", "vcmpps", "vcmpsd", "vcmpss"):
+        return [{CMP_PRED[u & 31]}]
+    if n in ("vpcmpb", "vpcmpw", "vpcmpd", "vpcmpq", "vpcmpub", "vpcmpuw", "vpcmpud", "vpcmpuq"):
+        return [VPCMP_PRED[u & 7]]
+    if n in ("vpcomb", "vpcomw", "vpcomd", "vpcomq", "vpcomub", "vpcomuw", "vpcomud", "vpcomuq"):
+        return [VPCOM_PRED[u & 7]]
+    if n in _SHUF:
+        bits, cnt = _SHUF[n]
+        if bits is None:
+            count = max(vec // 16, 2)          # number of 128-bit lanes selected: ymm 2 x 1 bit, zmm 4 x 2 bits
+            bits = 1 if count <= 2 else 2
+        else:
+            count = cnt(vec)
+        return [{str((u >> (bits * i)) & ((1 << bits) - 1))} for i in reversed(range(count))]
+    if n in ("shufpd", "vshufpd"):
+        # element i: even elements come from the first source (A), odd ones from the second (B); bit i picks the low/high qword of the lane
+        return [{"%s%d" % ("A" if i % 2 == 0 else "B", (i // 2) * 2 + ((u >> i) & 1))} for i in range(min(vec // 8, 8))]
+    if n in ("shufps", "vshufps"):
+        return [{"%s%d" % ("A" if i < 2 else "B", (u >> (2 * i)) & 3)} for i in range(4)]
+    if n in ("pclmulqdq", "vpclmulqdq"):
+        return [{"HQ" if u & 0x10 else "LQ"}, {"HQ" if u & 0x01 else "LQ"}]        # second source qword, first source qword
+    if n in ("roundpd", "roundps", "roundsd", "roundss", "vroundpd", "vroundps", "vroundsd", "vroundss", "vcvtps2ph"):
+        out = [{ROUND_MODES[u & 3]}] if not u & 4 else [("opt", {"CURRENT", "MXCSR"})]        # imm8[2]: rounding mode of MXCSR
+        if u & 8 and n != "vcvtps2ph":
+            out.append({"SUPPRESS", "SPE", "SAE"})                                              # precision exception suppressed
+        return out
+    if n in ("vrndscalepd", "vrndscaleps", "vrndscalesd", "vrndscaless", "vreducepd", "vreduceps", "vreducesd", "vreducess"):
+        out = [("opt", {ROUND_MODES[u & 3]})] if not u & 4 else [("opt", {"CURRENT", "MXCSR"})]
+        if u & 8:
+            out.append({"SAE", "SPE", "SUPPRESS"})
+        out.append({"LEN=%d" % (u >> 4), "M=%d" % (u >> 4)})
+        return out
+    if n in ("vperm2f128", "vperm2i128"):
+        def half(x):
+            return {"0"} if x & 8 else {["A0", "A1", "B0", "B1"][x & 3]}
+        return [half(u >> 4), half(u)]
+    if n in ("vrangepd", "vrangeps", "vrangesd", "vrangess"):
+        return [{["SIGN_A", "SIGN_B", "SIGN_0", "SIGN_1"][(u >> 2) & 3]}, {["MIN", "MAX", "MIN_ABS", "MAX_ABS"][u & 3]}]
+    if n in ("vgetmantpd", "vgetmantps", "vgetmantsd", "vgetmantss"):
+        out = [{["[1, 2)", "[.5, 2)", "[.5, 1)", "[.75, 1.5)"][u & 3]}]
+        if u & 4:
+            out.append({"NO_SIGN"})
+        if u & 8:
+            out.append({"QNAN_IF_SIGN"})
+        return out
+    if n in ("vfpclasspd", "vfpclassps", "vfpclasssd", "vfpclassss"):
+        return [{FPCLASS[k]} for k in range(8) if u >> k & 1]                   # any order (compared as a set of tokens)
+    if n in ("vfixupimmpd", "vfixupimmps", "vfixupimmsd", "vfixupimmss"):
+        return [{FIXUP_FLAGS[k]} for k in range(8) if u >> k & 1]
+    if n in ("mpsadbw", "vmpsadbw"):
+        lo = [{"BLK1[%d]" % ((u >> 2) & 1)}, {"BLK2[%d]" % (u & 3)}]
+        if vec < 32:
+            return lo                                                             # the 128-bit form reads imm8[2:0] only
+        return [{"BLK1[%d]" % (4 + ((u >> 6) & 1)), "BLK1[%d]" % ((u >> 6) & 1)}, {"BLK2[%d]" % (4 + ((u >> 4) & 3)), "BLK2[%d]" % ((u >> 4) & 3)}] + lo
+    return None
+
+
+UNORDERED_EXPLAIN = ("vfpclass", "vfixupimm", "mpsadbw", "vmpsadbw")
+
+
+def compare_explain(name, imm, vec, deco, flag_on):
+    """deco: list of `{..}` bodies printed with the immediate operand. -> None (faithful / no verdict) | message"""
+    if not flag_on:
+        return "explanation `{%s}` printed although kExplainImms is off" % deco[0] if deco else None
+    exp = explain_expected(name, imm, vec)
+    if exp is None:
+        return None
+    if len(deco) > 1:
+        return "two explanations %s" % deco
+    got = [t.strip() for t in deco[0].split("|")] if deco else []
+    want_txt = "|".join("/".join(sorted(t[1] if isinstance(t, tuple) else t)) + ("?" if isinstance(t, tuple) else "") for t in exp)
+    if name.lower().startswith(UNORDERED_EXPLAIN):
+        need = [t for t in exp if not isinstance(t, tuple)]
+        ok = len(got) == len(need) and all(any(g in t for g in got) for t in need) and all(any(g in t for t in need) for g in got)
+        return None if ok else "imm8 0x%02x explained as {%s}, the bits mean {%s}" % (imm & 0xFF, "|".join(got), want_txt)
+    i = 0
+    for t in exp:
+        opt = isinstance(t, tuple)
+        alts = t[1] if opt else t
+        if i < len(got) and got[i] in alts:
+            i += 1
+        elif not opt:
+            return "imm8 0x%02x explained as {%s}, the bits mean {%s}" % (imm & 0xFF, "|".join(got), want_txt)
+    if i != len(got):
+        return "imm8 0x%02x explained as {%s}, the bits mean {%s}" % (imm & 0xFF, "|".join(got), want_txt)
+    return None
+
+
+# ---------------------------------------------------------------------------------------------------------------------
+# directives: label bound / align / data / embedded label (delta) / section / comment lines of the logger (kind dir) and
+# of Formatter::format_node (kind dirn). The data notation is AsmJit's (`.db/.dw/.dd/.dq` on x86, `.byte/.half/.word/
+# .quad`-style names on AArch64, `.repeat N` prefix, items as zero-padded hex of the item width); what it must DENOTE is
+# the bytes appended / the arguments given.
+# ---------------------------------------------------------------------------------------------------------------------
+
+DATA_KW = {"x86": {"db": 1, "byte": 1, "dw": 2, "word": 2, "short": 2, "dd": 4, "dword": 4, "long": 4, "dq": 8, "qword": 8, "quad": 8},
+           "a64": {"byte": 1, "half": 2, "hword": 2, "short": 2, "word": 4, "long": 4, "xword": 8, "quad": 8, "dword": 8}}
+TYPE_SIZE = {34: 1, 35: 1, 36: 2, 37: 2, 38: 4, 39: 4, 40: 8, 41: 8, 42: 4, 43: 8, 44: 10, 45: 1, 46: 2, 47: 4, 48: 8, 49: 4, 50: 8}
+for _t in (51, 52, 53, 54, 55, 56, 59):
+    TYPE_SIZE[_t] = 4
+for _t in range(61, 71):
+    TYPE_SIZE[_t] = 8
+for _t in range(71, 81):
+    TYPE_SIZE[_t] = 16
+for _t in range(81, 91):
+    TYPE_SIZE[_t] = 32
+for _t in range(91, 101):
+    TYPE_SIZE[_t] = 64
+
+
+def type_size(t, regsize):
+    return regsize if t in (32, 33) else TYPE_SIZE[t]
+
+
+def parse_data_text(text, fam):
+    """`.repeat 3 .dw 0x0001, 0x0002` -> (repeat, item size, [values], hex digits per item list) | None"""
+    m = re.match(r"^(?:\.repeat\s+(\d+)\s+)?\.(\w+)\s+(.*)$", text.strip())
+    if not m:
+        return None
+    size = DATA_KW[fam].get(m.group(2).lower())
+    if size is None:
+        return None
+    items = [x.strip() for x in m.group(3).split(",")] if m.group(3).strip() else []
+    vals = []
+    for it in items:
+        v = parse_num(it)
+        if v is None or v < 0:
+            return None
+        vals.append(v)
+    return int(m.group(1) or 1), size, vals, items
+
+
+def data_line_bytes(text, fam):
+    """the bytes a data line denotes (little endian items, repeated) | None, why"""
+    p = parse_data_text(text, fam)
+    if p is None:
+        return None, "not a data line: `%s`" % text[:120]
+    rep, size, vals, items = p
+    if any(v >> (8 * size) for v in vals):
+        return None, "an item does not fit the %d-byte directive in `%s`" % (size, text[:120])
+    one = b"".join(v.to_bytes(size, "little") for v in vals)
+    return one * rep, None
+
+
+def label_text(kind, lid, name, parent_name=None):
+    """documented label notation (same rules as c20.label_texts)"""
+    if kind == "a":
+        return "L%d" % lid
+    if kind == "n":
+        return "L%d@%s" % (lid, name)
+    if kind == "l":
+        return "%s.%s" % (parent_name, name)
+    return name
 
 
 # ---------------------------------------------------------------------------------------------------------------------
